@@ -1792,12 +1792,14 @@ sexp sexp_sqrt (sexp ctx, sexp self, sexp_sint_t n, sexp z) {
 
 #if SEXP_USE_RATIOS || !SEXP_USE_FLONUMS
 sexp sexp_generic_expt (sexp ctx, sexp x, sexp_sint_t e) {
+  sexp_sint_t abs_e = (e < 0) ? -e : e;
   sexp_gc_var2(res, tmp);
   sexp_gc_preserve2(ctx, res, tmp);
-  for (res = SEXP_ONE, tmp = x; e > 0; e >>= 1) {
-    if (e&1) res = sexp_mul(ctx, res, tmp);
+  for (res = SEXP_ONE, tmp = x; abs_e > 0; abs_e >>= 1) {
+    if (abs_e&1) res = sexp_mul(ctx, res, tmp);
     tmp = sexp_mul(ctx, tmp, tmp);
   }
+  if (e < 0) res = sexp_div(ctx, SEXP_ONE, res);
   sexp_gc_release2(ctx);
   return res;
 }
